@@ -1,7 +1,7 @@
 META = dict(
     level='model_checking',
     rule=('executions = (copy_and_verify variant, source content/placement, adversary script); variants: copy_and_verify on primitive value, on T* (5 pointee types), '
-          'on struct pointer, struct value, fixed array; copy_and_verify_range (char/short/int/long x counts 1-4); copy_and_verify_string with unique_ptr<char[]>, '
+          'on struct pointer, struct value, fixed array (verifiers taking their parameter by value and by const reference / const auto&); copy_and_verify_range (char/short/int/long x counts 1-4); copy_and_verify_string with unique_ptr<char[]>, '
           'unique_ptr<const char[]> and std::string verifiers (lengths 0-3, interior and ending on the last byte of the region); copy_and_verify_address / '
           '_buffer_address; copy_memory_or_deny_access; and the same range / pointer / address / buffer-address / string variants with a RECEIVER THAT IS A POINTER CELL IN SANDBOX MEMORY '
           '(tainted_volatile<T*>), where the adversary may also re-point the cell (to a second object, to the last element of the region, to null) between RLBox\'s reads of it: the '
